@@ -38,6 +38,7 @@ PRE = ["at", "fwd", "rev", "early", "norm", "asexp", "diff_early"]
 FINAL = ["at", "fwd", "fwd_y", "rev", "early", "diff_early", "asexp", "asexp_rev", "norm"]
 NEEDS_POINT = {"at", "fwd", "fwd_y", "rev", "early", "diff_early"}
 POOLS = ["A", "B", "C", "D", "E"]
+TARGETS = {"C": ("e1", "e2", "e3", "b1", "b2", "b3")}
 
 
 def op(k, target, pt):
@@ -64,12 +65,21 @@ def long_lived():
                     out.append({"pool": pool, "hist": [["mk", "P", kind, t], ["q", "P", "p"], mid, ["q", "P", "p2"]]})
                 out.append({"pool": pool, "hist": [["mk", "P", kind, t], ["q", "P", "q"], ["q", "P", "p"]]})
                 if kind in ("diff", "diff_early"):
+                    out.append({"pool": pool, "hist": [["mk", "P", kind, t], ["q", "P", "q"], ["qat", "P", "p"]]})
+                    out.append({"pool": pool, "hist": [["mk", "P", kind, t], ["qasexp", "P"], ["qat", "P", "p"]]})
                     out.append({"pool": pool, "hist": [["mk", "P", kind, t], ["qat", "P", "q"], ["qat", "P", "p"]]})
                     out.append({"pool": pool, "hist": [["mk", "P", kind, t], ["qat", "P", "q"], ["q", "P", "p"]]})
                     out.append({"pool": pool, "hist": [["mk", "P", kind, t], ["qat", "P", "q"], ["qasexp", "P"]]})
                 out.append({"pool": pool, "hist": [["mk", "P", kind, t], ["qasexp", "P"], ["q", "P", "p"]]})
                 out.append({"pool": pool, "hist": [["mk", "P", kind, t], ["q", "P", "q"], ["qasexp", "P"]]})
                 out.append({"pool": pool, "hist": [["mk", "P", kind, t], ["q", "P", "q"], ["qasexp", "P"], ["q", "P", "p"]]})
+    for pool in POOLS:
+        for t in ("e1", "e2", "e3"):
+            for kind in ("located", "located_via_diff"):
+                # a LocatedDifferential kept alive while another reverse pass runs on the same expression at another point
+                for mid in (["rev", t, "p"], ["diff_early", t, "p"], ["at", t, "p"], ["qat", "Q", "p"]):
+                    h = [["mk", "L", kind, t]] + ([["mk", "Q", "diff", t]] if mid[0] == "qat" else []) + [mid, ["qld", "L"]]
+                    out.append({"pool": pool, "hist": h})
     return out
 
 
@@ -90,7 +100,17 @@ def jobs(tier, seed):
     co = composed()
     rng = random.Random(12345)
     if tier == "quick":
-        sel = l2[::41] + ll[::5] + [h for h in ll if any(o[0] == "qat" for o in h["hist"])][::4] + co[::3]
+        sel = l2[::41] + ll[::5] + [h for h in ll if any(o[0] in ("qat", "qld") for o in h["hist"])][::4] + co[::3]
+        # a shared node that can fail is evaluated on its own (possibly outside its domain), then an expression containing it
+        for pool, sh, roots in (("A", "s", ("e1", "e2", "e3")), ("D", "s", ("e1", "e2")), ("K", "s", ("e1",)), ("L", "s", ("e1", "e2"))):
+            for r in roots:
+                sel.append({"pool": pool, "hist": [["at", sh, "q"], ["at", r, "p"]]})
+                sel.append({"pool": pool, "hist": [["at", sh, "q"], ["norm", r], ["at", r, "p"]]})
+                sel.append({"pool": pool, "hist": [["at", r, "q"], ["norm", r], ["at", r, "p"]]})
+                sel.append({"pool": pool, "hist": [["at", r, "q"], ["asexp", r]]})
+        for b in ("b1", "b2", "b3"):
+            sel.append({"pool": "C", "hist": [["at", b, "q"], ["at", b, "p"]]})
+            sel.append({"pool": "C", "hist": [["fwd", b, "q"], ["rev", b, "p"]]})
     else:
         sel = l2[::3] + ll + co
         rng3 = random.Random(seed)
